@@ -303,7 +303,22 @@ def _ood_failures(limit=None):
                 if fresh and op != 'always':
                     fails.append(dict(input='chain %s -> %s -> %s -> src; redo %s; redo-ood' % (top, mid, leaf, top), observed=fresh,
                                       clause='redo-ood lists nothing right after a successful full build'))
-                listed = set(l for l in run(['redo-ood'], proj).stdout.split() if l)
+                def dump():
+                    import sqlite3
+                    db = sqlite3.connect(os.path.join(proj, '.redo', 'db.sqlite3'))
+                    try:
+                        return (db.execute('select * from Files order by rowid').fetchall(), db.execute('select * from Deps order by 1, 2').fetchall())
+                    finally:
+                        db.close()
+                listed = None
+                for q in ('redo-ood', 'redo-targets', 'redo-sources'):
+                    rows0 = dump()
+                    out_q = run([q], proj).stdout
+                    if q == 'redo-ood':
+                        listed = set(l for l in out_q.split() if l)
+                    if dump() != rows0:
+                        fails.append(dict(input=hist + '; ' + q, observed='the Files / Deps tables differ before and after %s' % q, label=q[5:] + '.commits_nothing',
+                                          clause='a query command commits nothing: the recorded state is the same before and after it'))
                 shutil.rmtree(proj, ignore_errors=True)
                 for t in names:
                     cp, _ = history('.' + t)
@@ -642,6 +657,42 @@ def _shell_line_failures():
     return fails, n
 
 
+def _same_target_twice_failures():
+    """Bounded: one command that names the same target several times, on the real binaries (the F3 shape): `redo -jN` and a
+    script's `redo-ifchange` with the spellings x, ./x, d/../x, link/x (link -> .), $PWD/x, for N in 1, 2, 3.  The command
+    must exit 0 (no abort on the lock registry's assertion) and x.do must run once per command.  -> (failures, n) or None"""
+    bindir = build_redo_bin()
+    if not bindir:
+        return None
+    env = {k: v for k, v in os.environ.items() if not k.startswith('REDO') and k != 'MAKEFLAGS'}
+    env['PATH'] = bindir + ':' + env.get('PATH', '')
+    work = tempfile.mkdtemp(prefix='redo-verif-twice.', dir='/var/tmp')
+    fails, n = [], 0
+    try:
+        for j in (1, 2, 3):
+            for via in ('redo', 'script'):
+                n += 1
+                proj = os.path.join(work, 'p%d' % n)
+                os.makedirs(os.path.join(proj, 'd'))
+                os.symlink('.', os.path.join(proj, 'link'))
+                open(os.path.join(proj, 'x.do'), 'w').write('echo ran >>x.ran\nsleep 0.3\necho x\n')
+                sp = ['x', './x', 'd/../x', 'link/x', proj + '/x']
+                open(os.path.join(proj, 'all.do'), 'w').write('redo-ifchange %s\n' % ' '.join(sp))
+                cmd = ['redo', '--no-log', '-j%d' % j] + (sp if via == 'redo' else ['all'])
+                r = subprocess.run(cmd, cwd=proj, env=env, capture_output=True, text=True, timeout=120)
+                ran = open(os.path.join(proj, 'x.ran')).read().count('ran') if os.path.exists(os.path.join(proj, 'x.ran')) else 0
+                hist = 'link -> .; ' + (' '.join(cmd) if via == 'redo' else 'all.do = "redo-ifchange %s"; redo --no-log -j%d all' % (' '.join(sp), j))
+                if r.returncode != 0:
+                    fails.append(dict(input=hist, observed='exit %d: %s' % (r.returncode, r.stderr.strip()[-240:]), label='lock_new.registry_free', prop='C09',
+                                      clause='a command that names one target several times does not abort (one live Lock per file id) and exits 0'))
+                if ran != 1:
+                    fails.append(dict(input=hist, observed='x.do ran %d times' % ran, label='run.first_pass_dedupes_by_id', prop='C07',
+                                      clause='one command hands each file to the builder at most once, whatever the spellings'))
+    finally:
+        shutil.rmtree(work, ignore_errors=True)
+    return fails, n
+
+
 def _corpus_failures(prop):
     """Bounded: the demonstration scripts of the seeded changes kept for this property (seeded/<id>/demo/demo.sh, listed in
     seeded/corpus.json with the clause each one checks).  Each is a concrete history with the real binaries that exits 0
@@ -777,13 +828,16 @@ def conformance(prop, unit_names, pins_changed, labels_props):
                     out.append(dict(oid='%s/%s/%s' % (unit, fn_, label), msg='contract clause fails on the real code for a concrete input (probe %s)' % probe_,
                                     where=REPO + where, site=None, text=hits[0]['clause'], rendered=json.dumps(hits[:6], indent=1),
                                     inputs=[h['input'] for h in hits], fn=fn_, label=label, props=props))
-    if ('queries' in unit_names or 'dbmode' in unit_names) and prop == 'C17':
+    if ('queries' in unit_names or 'dbmode' in unit_names or 'txn' in unit_names or any(p.endswith('::new') for p in pins_changed)) and prop == 'C17':
         r = _ood_failures()
-        if r and r[0]:
-            hits = r[0]
-            out.append(dict(oid='queries/ood_list/ood.lists_every_definitely_stale_target', msg='clause fails on the real binaries for a concrete history (bounded probe ood, %d histories)' % r[1],
-                            where=REPO + '/src/bin/redo/ood.rs:run', site=None, text=hits[0]['clause'], rendered=json.dumps(hits[:6], indent=1),
-                            inputs=[h['input'] for h in hits], fn='ood_list', label='ood.lists_every_definitely_stale_target', props=['C17']))
+        by = {}
+        for h in (r[0] if r else []):
+            by.setdefault(h.get('label', 'ood.lists_every_definitely_stale_target'), []).append(h)
+        for label, hits in by.items():
+            cmd = label.split('.')[0]
+            out.append(dict(oid='queries/%s_list/%s' % (cmd, label), msg='clause fails on the real binaries for a concrete history (bounded probe ood, %d histories)' % r[1],
+                            where=REPO + '/src/bin/redo/%s.rs:run' % cmd, site=None, text=hits[0]['clause'], rendered=json.dumps(hits[:6], indent=1),
+                            inputs=[h['input'] for h in hits], fn=cmd + '_list', label=label, props=['C17']))
     if prop in ('C15', 'C07', 'C06') and ('relpath' in unit_names or 'records' in unit_names or any(p.endswith('::from_name') or p.endswith('::realdirpath') for p in pins_changed)):
         r = _names_failures()
         if r and r[0]:
@@ -791,6 +845,16 @@ def conformance(prop, unit_names, pins_changed, labels_props):
             out.append(dict(oid='trusted/File::from_name/one_record_one_name_per_file', msg='clause fails on the real binaries for a concrete history (bounded probe names, %d histories)' % r[1],
                             where=REPO + '/src/state.rs:File::from_name', site=None, text=hits[0]['clause'], rendered=json.dumps(hits[:6], indent=1),
                             inputs=[h['input'] for h in hits], fn='from_name', label='one_record_one_name_per_file', props=[prop]))
+    if 'sched' in unit_names and prop in ('C09', 'C07', 'C15'):
+        r = _same_target_twice_failures()
+        by = {}
+        for h in (r[0] if r else []):
+            if (h['prop'] == 'C09') == (prop == 'C09'):
+                by.setdefault(h['label'], []).append(h)
+        for label, hits in by.items():
+            out.append(dict(oid='sched/run_body/' + label, msg='clause fails on the real binaries for a concrete history (bounded probe same-target-twice, %d histories)' % r[1],
+                            where=REPO + '/src/builder.rs:run', site=None, text=hits[0]['clause'], rendered=json.dumps(hits[:6], indent=1), inputs=[h['input'] for h in hits],
+                            fn='run_body', label=label, props=[prop]))
     if 'dofiles' in unit_names and prop in ('C05', 'C13'):
         r = _shell_line_failures()
         by = {}
@@ -828,11 +892,14 @@ def bounded(prop, unit_names, labels_props):
             notes.append('bounded probe ood: could not be built or run (nothing concluded from it)')
         else:
             notes.append('bounded probe ood: %d histories on the real binaries (3-target chains, every name order, every deletion subset / a source edit), %d failure(s) [bounded, not counted as proved]' % (r[1], len(r[0])))
-            if r[0]:
-                hits = r[0]
-                out.append(dict(oid='queries/ood_list/ood.lists_every_definitely_stale_target', msg='clause fails on the real binaries for a concrete history (bounded probe ood)',
-                                where=REPO + '/src/bin/redo/ood.rs:run', site=None, text=hits[0]['clause'], rendered=json.dumps(hits[:6], indent=1),
-                                inputs=[h['input'] for h in hits], fn='ood_list', label='ood.lists_every_definitely_stale_target', props=['C17']))
+            by = {}
+            for h in r[0]:
+                by.setdefault(h.get('label', 'ood.lists_every_definitely_stale_target'), []).append(h)
+            for label, hits in by.items():
+                cmd = label.split('.')[0]
+                out.append(dict(oid='queries/%s_list/%s' % (cmd, label), msg='clause fails on the real binaries for a concrete history (bounded probe ood)',
+                                where=REPO + '/src/bin/redo/%s.rs:run' % cmd, site=None, text=hits[0]['clause'], rendered=json.dumps(hits[:6], indent=1),
+                                inputs=[h['input'] for h in hits], fn=cmd + '_list', label=label, props=['C17']))
     if os.environ.get('VERIF_TIER_EFFECTIVE') == 'thorough':
         # every targeted probe on the real binaries that speaks about this property, then the recorded histories
         extra = []
@@ -842,6 +909,8 @@ def bounded(prop, unit_names, labels_props):
         if prop == 'C08':
             extra.append(('cheatpipe', _cheatpipe_failures, 'tokens/setup_cheat_fds/setup.own_jobserver_owns_its_debts', lambda h: True))
             extra.append(('conserve', _conserve_failures, 'tokens/do_force_return_tokens/exit.one_token', lambda h: True))
+        if prop in ('C09', 'C07', 'C15'):
+            extra.append(('same-target-twice', _same_target_twice_failures, 'sched/run_body/run.first_pass_dedupes_by_id' if prop != 'C09' else 'sched/run_body/lock_new.registry_free', lambda h: (h['prop'] == 'C09') == (prop == 'C09')))
         if prop in ('C05', 'C13'):
             extra.append(('shell-line', _shell_line_failures, 'dofiles/start_self_shell_line/shell.sh_stops_at_the_first_failing_command', lambda h: prop in h['props']))
         if prop in ('C03', 'C01'):
